@@ -727,7 +727,7 @@ func (m Model) Event(l *LoggerModel, ev EventSpec) ExpEvent {
 		case "caller":
 			f = append(f, ExpField{m.callerField(), Exp{Kind: "anystr"}})
 		case "user":
-			if h.Spec.Wrap == "level" && !levelHookRuns(cur) {
+			if h.Spec.Wrap == "level" && !levelHookRuns(cur) || h.Spec.Wrap == "levelsome" && cur != 1 && cur != 3 && cur != 6 {
 				continue
 			}
 			out.HookCalls = append(out.HookCalls, HookCall{ID: h.Spec.ID, Level: zl(cur), Msg: msg, Ctx: st.ctx})
